@@ -524,3 +524,46 @@ def string_and_tuple_are_immutable(n: int):
     except TypeError:
         r = 3
     assert r == 3
+
+
+# ---- added with the merge of audit-B: the edge of the iterator model (an iterator argument is consumed completely, at once)
+@lemma
+def iterator_shared_with_a_lazy_map(n: int):
+    it = iter([1, 2, 3])
+    m = map(lambda q: q + n, it)
+    assert next(it) == 1, "map has not taken anything yet"
+    assert list(m) == [2 + n, 3 + n]
+
+
+@lemma
+def zip_leaves_the_rest_of_a_longer_iterator(n: int):
+    a = iter([1, 2, n])
+    assert list(zip(a, [0])) == [(1, 0)]
+    assert next(a) == n, "zip took two items from a (the second one is lost), not all three"
+
+
+@lemma
+def islice_leaves_the_rest_of_the_iterator(n: int):
+    import itertools
+
+    a = iter([1, n, 3])
+    assert list(itertools.islice(a, 1)) == [1] and next(a) == n
+
+
+class _LoggingBag:
+    def __init__(self, items):
+        self.items = items
+        self.log = []
+
+    def __iter__(self):
+        for v in self.items:
+            self.log.append(v)
+            yield v
+
+
+@lemma
+def implicit_generator_with_effects(n: int):
+    b = _LoggingBag([n, 2, 3])
+    for v in b:
+        break
+    assert b.log == [n], "the generator behind __iter__ ran only up to its first yield"
